@@ -162,6 +162,73 @@ func runAll(c *run.Ctx) {
 			Pair(k, domain, a, b)
 		})
 	}
+	// polygons nested in holes: the second operand lives around a hole of the first (inside it,
+	// crossing its ring, touching it), with a random start vertex — the containment probes of
+	// the per-type-pair routines only look at one vertex of each operand
+	for i := 0; i < c.N(1500, 30000); i++ {
+		c.Case("in-hole", i, func(k *run.K) {
+			r := k.Rng
+			S := r.Range(8, 12)
+			hx, hy := r.Range(2, 4), r.Range(2, 4)
+			hw, hh := r.Range(2, S-hx-2), r.Range(2, S-hy-2)
+			shell := []float64{0, 0, float64(S), 0, float64(S), float64(S), 0, float64(S), 0, 0}
+			hole := []float64{float64(hx), float64(hy), float64(hx + hw), float64(hy), float64(hx + hw), float64(hy + hh), float64(hx), float64(hy + hh), float64(hx), float64(hy)}
+			if r.Bool() { // triangle hole
+				hole = []float64{float64(hx), float64(hy), float64(hx + hw), float64(hy), float64(hx), float64(hy + hh), float64(hx), float64(hy)}
+			}
+			a := geom.NewPolygonXY(shell, hole).AsGeometry()
+			// b: a small convex polygon / line / points around the hole
+			var pts [][2]int
+			for j := r.Range(3, 5); j > 0; j-- {
+				pts = append(pts, [2]int{r.Range(hx-1, hx+hw+1), r.Range(hy-1, hy+hh+1)})
+			}
+			var b geom.Geometry
+			switch r.Intn(4) {
+			case 0, 1:
+				fs := []float64{}
+				for _, p := range pts {
+					fs = append(fs, float64(p[0]), float64(p[1]))
+				}
+				h := geom.NewMultiPointXY(fs...).AsGeometry().ConvexHull()
+				if h.IsPolygon() {
+					// rotate the start vertex
+					ring := h.MustAsPolygon().ExteriorRing().Coordinates()
+					b = geom.NewPolygon([]geom.LineString{geom.NewLineString(shared.RotateRing(ring, r.Intn(ring.Length())))}).AsGeometry()
+				} else {
+					b = h
+				}
+			case 2:
+				fs := []float64{}
+				for _, p := range pts {
+					fs = append(fs, float64(p[0]), float64(p[1]))
+				}
+				b = geom.NewLineStringXY(fs...).AsGeometry()
+			default:
+				b = geom.NewMultiPointXY(float64(pts[0][0]), float64(pts[0][1]), float64(pts[1][0]), float64(pts[1][1])).AsGeometry()
+			}
+			if !exact.ValidGeom(b).OK || !exact.ValidGeom(a).OK {
+				k.Skip("intersects-exact")
+				return
+			}
+			switch r.Intn(4) {
+			case 0:
+				a = geom.NewMultiPolygon([]geom.Polygon{a.MustAsPolygon()}).AsGeometry()
+			case 1:
+				if b.IsPolygon() {
+					b = geom.NewMultiPolygon([]geom.Polygon{b.MustAsPolygon()}).AsGeometry()
+				}
+			case 2:
+				a = geom.NewGeometryCollection([]geom.Geometry{a}).AsGeometry()
+			}
+			if r.Bool() {
+				a, b = b, a
+			}
+			k.In("domain", gen.DSmall)
+			k.In("a", shared.WKT(a))
+			k.In("b", shared.WKT(b))
+			Pair(k, gen.DSmall, a, b)
+		})
+	}
 	// triples
 	for i := 0; i < c.N(1200, 30000); i++ {
 		c.Case("triple", i, func(k *run.K) {
